@@ -258,11 +258,9 @@ def twice(fmt, text):
     the second result must equal the first and share no text-derived mutable object with it"""
     import numpy
     from diffpy.structure.parsers import getParser
-    # program constants (module-level data of the package, e.g. the predefined SpaceGroup objects) may be shared
-    const_ids = set()
-    for m in pkg_modules():
-        for _, o in walk(vars(m)):
-            const_ids.add(id(o))
+    # program constants (module-level data of the package as it is right after import, e.g. the predefined
+    # SpaceGroup objects) may be shared; anything that entered module-level state later may not
+    const_ids = state["const_ids"]
     p1 = getParser(fmt)
     s1 = p1.parse(text)
     root1 = {"stru": s1, "parser": p1}
@@ -367,6 +365,17 @@ def main():
     os.chdir(os.path.join(scratch, "cwd"))
     result_path = spec["result"]
     assert os.path.isabs(result_path)
+    # pristine program constants: import everything a parse can import, then remember what module-level data holds
+    import diffpy.structure.spacegroups     # noqa
+    import diffpy.structure.symmetryutilities     # noqa
+    from diffpy.structure.parsers import getParser, inputFormats
+    for f in inputFormats():
+        getParser(f)
+    const_ids = set()
+    for m in pkg_modules():
+        for _, o in walk(vars(m), limit=2000000):
+            const_ids.add(id(o))
+    state["const_ids"] = const_ids
     sys.addaudithook(hook)
     out = []
     for c in spec["cases"]:
